@@ -167,6 +167,26 @@ def run(ctx):
                 ctx.violation("C15:decode:row-containers", "sheet 1 of %r (%s, rows in containers): read %s, logical table %s" % (gd, feats, impl, want), {"doc": gd, "features": feats, "impl": impl})
             if impl != m:
                 ctx.violation("C15:model:row-containers", "implementation %s, model %s" % (impl, m), {"doc": gd, "features": feats})
+        # ---- cells covered by a merged cell still take up a column -----------------------------------------------------------------------
+        cover_outs = core.run_driver([line("odsc", "".join("1" if f[n_] else "0" for n_ in FEATURES), "1", "|".join(rows_str(rows) for rows in gd)) for f, gd in group_cases])
+        for (f, gd), mo in zip(group_cases, cover_outs):
+            m, x = mo.split("\t")
+            m, x = m[2:], x[2:]
+            tree = ods_enc.cover(ods_enc.encode_doc(f, gd))
+            if ods_enc.canonical(tree) != x:
+                ctx.machinery_error("the harness's cover and Lean's coverDoc produce different trees: %r" % ((f, gd),))
+                continue
+            path = os.path.join(tmp, "case.ods")
+            ods_enc.write_ods(path, tree)
+            impl = impl_rows(path, 1)
+            os.remove(path)
+            want = "ok " + rows_str(gd[0])
+            feats = "+".join(n_ for n_ in FEATURES if f[n_]) or "plain"
+            ctx.count(key=("covered-cells", feats, repr(gd)), nontrivial=True, branch="covered-cells")
+            if impl != want:
+                ctx.violation("C15:decode:covered-cells", "sheet 1 of %r (%s, every second cell covered): read %s, logical table %s" % (gd, feats, impl, want), {"doc": gd, "features": feats, "impl": impl})
+            if impl != m:
+                ctx.violation("C15:model:covered-cells", "implementation %s, model %s" % (impl, m), {"doc": gd, "features": feats})
         # ---- fault paths --------------------------------------------------------------------------------------------
         tree = ods_enc.encode_doc({n_: False for n_ in FEATURES}, [[["a", "b"], ["c", "d"]]])
         good = os.path.join(tmp, "good.ods")
